@@ -696,6 +696,45 @@ def schema_field(rng, doc):
     return True
 
 
+@op("object-is-an-object", "break")
+def pairs_for_object(rng, doc):
+    """an object written as a list of [key, value] pairs (dict() would accept it) or as something else dict()
+    accepts"""
+    spots = []
+
+    def walk(x):
+        if isinstance(x, dict):
+            for k, v in x.items():
+                if isinstance(v, dict) and v:
+                    spots.append((x, k))
+                walk(v)
+        elif isinstance(x, list):
+            for i, v in enumerate(x):
+                if isinstance(v, dict) and v:
+                    spots.append((x, i))
+                walk(v)
+    walk(doc)
+    if not spots:
+        return False
+    holder, key = rng.choice(spots)
+    v = holder[key]
+    holder[key] = rng.choice([[[k, w] for k, w in v.items()], [(k, w) for k, w in v.items()][:1], [], "ab"])
+    return True
+
+
+@op("float-is-finite", "break")
+def infinite_step(rng, doc):
+    ps = [p for p in job_params(doc, types=("FLOAT",))]
+    p = pick(rng, ps)
+    if p is None:
+        return False
+    ui = p.get("userInterface")
+    if not isinstance(ui, dict) or ui.get("control") != "SPIN_BOX":
+        p["userInterface"] = ui = {"control": "SPIN_BOX"}
+    ui["singleStepDelta"] = rng.choice([float("inf"), "inf", "1e999", "Infinity", float("nan"), 1e308, "2"])
+    return True
+
+
 def mutate(rng, doc, n=1, only=None):
     """apply n random operators; -> list of (opname, rule, kind) actually applied"""
     applied = []
